@@ -995,6 +995,31 @@ func callBuiltin(caller *frame, callpos token.Pos, fn *ssa.Builtin, args []value
 		chanClose(caller, args[0])
 		return nil
 
+	case "clear": // clear(map[K]V) or clear([]T)
+		switch m := args[0].(type) {
+		case map[value]value:
+			lsMapAccess(args[0], true)
+			for k := range m {
+				delete(m, k)
+			}
+		case *hashmap:
+			lsMapAccess(args[0], true)
+			if m != nil {
+				m.table = make(map[int]*entry)
+				m.length = 0
+			}
+		case []value:
+			if len(m) > 0 {
+				et := fn.Type().(*types.Signature).Params().At(0).Type().Underlying().(*types.Slice).Elem()
+				for i := range m {
+					m[i] = zero(et)
+				}
+			}
+		default:
+			panic(fmt.Sprintf("clear: illegal operand type: %T", m))
+		}
+		return nil
+
 	case "delete": // delete(map[K]value, K)
 		lsMapAccess(args[0], true)
 		switch m := args[0].(type) {
